@@ -119,6 +119,8 @@ type mvSess struct {
 	spec    *mvSpec
 	st      *Stats
 	lastCts uint64
+	// DropAll ran in this session (in-memory mode: the value-size limit then changes, F18)
+	droppedAll bool
 }
 
 func (s *mvSess) close() {
@@ -217,6 +219,7 @@ func (s *mvSess) open(kv map[string]string) (string, error) {
 	s.txns = map[int]*mvTxn{}
 	s.spec = newSpec()
 	s.lastCts = 0
+	s.droppedAll = false
 	mc, ms, _ := badger.VerifLimits(s.db)
 	return fmt.Sprintf("reset managed=%d keep=%d thr=%d inmem=%d levels=%d detect=%d tblsz=%d basesz=%d comp=%d memsz=%d now=%d maxcount=%d maxsize=%d vlogsz=%d",
 		b2i(s.managed), s.keep, s.thr, b2i(s.inmem), s.levels, b2i(detect), tblsz, basesz, comp, memsz, s.now, mc, ms, 1<<20), nil
@@ -423,7 +426,11 @@ func execMvcc(intents []string, st *Stats) (final, outs, oracle []string) {
 			}
 			emit(line, k)
 			if k != want && !(want == "ok" && k == "err:txntoobig") {
-				fail("C28-validation", fmt.Sprintf("got %s want %s", k, want))
+				if s.inmem && s.droppedAll && want == "err:valtoobig" && k == "ok" {
+					fail("F18:inmem-threshold-after-dropall", fmt.Sprintf("in-memory DB after DropAll: value of %d bytes > ValueThreshold %d accepted (before DropAll it is rejected)", len(val), s.thr))
+				} else {
+					fail("C28-validation", fmt.Sprintf("got %s want %s", k, want))
+				}
 			}
 		case "get":
 			id, _ := strconv.Atoi(w[1])
@@ -873,6 +880,7 @@ func (s *mvSess) dropAll(emit func(string, string), fail func(string, string)) {
 	if err != nil {
 		return
 	}
+	s.droppedAll = true
 	badger.VerifTakeEvents()
 	emit("dump", s.dump())
 	for _, k := range s.spec.keys() {
